@@ -224,6 +224,7 @@ func (e *Engine) loadSpecs(externDir string) error {
 				old.Private = append(old.Private, t.Private...)
 				old.Transient = append(old.Transient, t.Transient...)
 				old.LockInvs = append(old.LockInvs, t.LockInvs...)
+				old.Frozen = append(old.Frozen, t.Frozen...)
 				old.Owns = append(old.Owns, t.Owns...)
 				old.Inits = append(old.Inits, t.Inits...)
 				old.Atomic = append(old.Atomic, t.Atomic...)
